@@ -171,10 +171,20 @@ pub struct History {
   pub steps: Vec<Step>,
 }
 
+/// What an injection operator did to an otherwise well-formed program (C05-C07), for the oracle and the evidence.
+#[derive(Serialize, Deserialize, Clone, Debug, PartialEq, Eq, Hash)]
+pub enum Inject {
+  Hidden { g: ResId, writer: TaskId, reader: TaskId },
+  Overlap { g: ResId, w1: TaskId, w2: TaskId },
+  Cycle { from: TaskId, to: TaskId, guarded: bool },
+}
+
 #[derive(Serialize, Deserialize, Clone, Debug, PartialEq, Eq, Hash, Default)]
 pub struct Case {
   pub prog: Program,
   pub hist: History,
+  #[serde(default)]
+  pub inject: Option<Inject>,
 }
 
 // ---------------------------------------------------------------------------------------------------------------------
@@ -234,4 +244,7 @@ pub fn pretty_history(h: &History) -> String {
   s
 }
 
-pub fn pretty_case(c: &Case) -> String { format!("{}{}", pretty_program(&c.prog), pretty_history(&c.hist)) }
+pub fn pretty_case(c: &Case) -> String {
+  let inj = match &c.inject { Some(i) => format!("injected: {:?}\n", i), None => String::new() };
+  format!("{}{}{}", inj, pretty_program(&c.prog), pretty_history(&c.hist))
+}
